@@ -153,10 +153,13 @@ func init() {
 				{K: "resp", I: 0}, {K: "resp", I: 1}, {K: "resp", I: 2}, {K: "resp", I: 0, Arg: 3},
 				{K: "unknown"}, {K: "garbage", Arg: 0}, {K: "readerr", Arg: 3},
 				{K: "tick", Arg: 0}, {K: "tick", Arg: 1}, {K: "tick", Arg: 2},
-				{K: "failwrite"}, {K: "failagent"}, {K: "failagent", Arg: 1}, {K: "close"},
+				{K: "failwrite"}, {K: "failwrite", Arg: 1}, {K: "failagent"}, {K: "failagent", Arg: 1}, {K: "close"},
 			}
 			cliHistories(c, "C10", cliOpts{}, alpha, depth, []string{"drain+close", "close"}, "H")
 			cliHistories(c, "C10", cliOpts{NoRetransmit: true, Fallback: true}, alpha, depth-1, []string{"drain+close", "close"}, "Hnr")
+			// handlers that call back into the client when they are told of a failure (a retry, an Indicate): whatever the
+			// client holds while it runs a handler, it must not be something those calls need
+			cliHistories(c, "C10", cliOpts{Reentrant: true}, alpha, depth-1, []string{"drain+close", "close"}, "Hre")
 			// from a non-initial state: A was answered once already (so late / duplicate responses to A exist)
 			cliHistoriesFrom(c, "C10", cliOpts{}, []cliEv{{K: "start", I: 0}, {K: "resp", I: 0}}, alpha, depth-1, []string{"drain+close"}, "Hafter")
 			for i, sc := range cliConcurrentScenarios() {
@@ -197,6 +200,8 @@ func cliConcurrentScenarios() []cliScenario {
 		{Threads: [][]cliEv{nil, {ev("do", 0)}, {{K: "close"}}, {ev("resp", 0)}}, Epilogue: "close"},
 		// S4 retransmission with a write fault || response, then the probe
 		{Setup: []cliEv{ev("start", 0), {K: "failwrite"}}, Threads: [][]cliEv{nil, {tickAfter}, {ev("resp", 0)}}, Probe: true, Epilogue: "drain+close", Opts: cliOpts{PoolFanout: true}},
+		// S4b the same with a write error that is a net.Error time-out
+		{Setup: []cliEv{ev("start", 0), {K: "failwrite", Arg: 1}}, Threads: [][]cliEv{nil, {tickAfter}, {ev("resp", 0)}}, Probe: true, Epilogue: "drain+close", Opts: cliOpts{PoolFanout: true}},
 		// S5 Start(A) || Start(A)
 		{Threads: [][]cliEv{nil, {ev("start", 0)}, {ev("start", 0)}}, DupIDs: true, Epilogue: "drain+close"},
 		// S6 two Do in parallel, responses crossed
